@@ -386,3 +386,50 @@ package thrift
 //@   ensures !isnil(w) && len(v) >= 4096 ==> ret == 4 && encI32(buf, 0, len(v)) &&
 //@           w.$ndirect == old(w.$ndirect) + 1 && len(w.$lastdirect) == len(v) && eqbytes(w.$lastdirect, 0, v, 0, len(v)) && w.$lastremain == len(buf) - 4
 //@   assigns buf[0:4+len(v)], w.$ndirect, w.$lastdirect, w.$lastremain
+
+// ---- skipping (buffer) ----
+// The oracle is the Thrift Binary grammar in internal/verifspec (ValLenD and friends):
+// result >= 0 is the exact encoded length; -1 invalid data, -2 negative size, -3 depth limit.
+
+//@ pred isPE(err, code) = istype(err, *ProtocolException) && astype(err, *ProtocolException).t == code
+//@ pred skipResult(R, n, err) = (R >= 0 ==> err == nil && n == R) && (R == -1 ==> isPE(err, 1)) && (R == -2 ==> err == errNegativeSize) && (R == -3 ==> err == errDepthLimitExceeded) && -3 <= R
+
+//@ func skipstr
+//@   arith int
+//@   props C02, C03, C08, C17
+//@   let L = int(e - uintptr(p))
+//@   requires uintptr(p) <= e && 0 <= L && L <= avail(p) && region(p) != 0
+//@   let R = vs.StrLen(bytes(p, L))
+//@   ensures skipResult(R, ret0, ret1)
+//@   ensures ret1 == nil ==> 4 <= ret0 && ret0 <= L
+
+//@ func BinaryProtocol.Skip
+//@   arith int
+//@   props C02, C03, C08, C17
+//@   let R = vs.ValLenD(b, t, 64)
+//@   ensures skipResult(R, ret0, ret1)
+//@   ensures[C03] ret1 == nil ==> 1 <= ret0 && ret0 <= len(b)
+
+//@ func skipType
+//@   arith int
+//@   props C02, C03, C08, C17
+//@   let L = int(e - uintptr(p))
+//@   let B = bytes(p, L)
+//@   requires uintptr(p) <= e && 0 <= L && L <= avail(p) && region(p) != 0 && 0 <= maxdepth && maxdepth <= 64
+//@   let R = maxdepth == 0 ? -3 : vs.ValLenD(B, t, maxdepth)
+//@   hint vs.LemmaFixedElems(B[5:], int8(B[0]), int(int32(vs.BE32(B, 1))), maxdepth)
+//@   hint vs.LemmaFixedPairs(B[6:], int8(B[0]), int8(B[1]), int(int32(vs.BE32(B, 2))), maxdepth)
+//@   ensures skipResult(R, ret0, ret1)
+//@   ensures ret1 == nil ==> 1 <= ret0 && ret0 <= L
+//@   decreases maxdepth
+//@   loop 1 invariant 6 <= i && i <= L+8 && 0 <= j && j <= sz && err == nil
+//@   loop 1 invariant i <= L ==> vs.PairsLenD(B[6:], kt, vt, int(sz), maxdepth) == vs.Then(i-6, vs.PairsLenD(B[i:], kt, vt, int(sz-j), maxdepth))
+//@   loop 1 invariant i > L ==> vs.PairsLenD(B[6:], kt, vt, int(sz), maxdepth) == -1
+//@   loop 1 decreases int(sz - j)
+//@   loop 2 invariant 5 <= i && i <= L && 0 <= j && j <= sz && err == nil
+//@   loop 2 invariant vs.ElemsLenD(B[5:], vt, int(sz), maxdepth) == vs.Then(i-5, vs.ElemsLenD(B[i:], vt, int(sz-j), maxdepth))
+//@   loop 2 decreases int(sz - j)
+//@   loop 3 invariant 0 <= i && i <= L+8 && err == nil
+//@   loop 3 invariant i <= L ==> vs.FieldsLenD(B, maxdepth) == vs.Then(i, vs.FieldsLenD(B[i:], maxdepth))
+//@   loop 3 invariant i > L ==> vs.FieldsLenD(B, maxdepth) == -1
+//@   loop 3 decreases L + 8 - i
